@@ -1,6 +1,7 @@
 """Implementation side of C01: histories on one DataArray; cells travel as integers (bit patterns
 for floats, pool indices for text)."""
 import gc
+import zlib
 import json
 import os
 import struct
@@ -105,6 +106,7 @@ def main():
         # two Python objects of the one array: operations alternate between them, every observation is made through
         # both (shape, length, cells) and must be the same
         hs = [da, b.data_arrays["a"]]
+        par = zlib.crc32(json.dumps(case, sort_keys=True).encode())
         len(hs[1]), hs[1].shape
 
         def observe2(refused):
@@ -117,7 +119,7 @@ def main():
         comp_stored = None
         for nop, op in enumerate(case["ops"]):
             refused = False
-            da = hs[(nop + k) % 2]
+            da = hs[(nop + par) % 2]
             try:
                 if op[0] == "write_all":
                     v = to_np(dt, op[1], [int(x) for x in da.shape], pool)
